@@ -23,6 +23,15 @@ def size : Forest → Nat
   | [] => 0
   | (.node _ _ cs) :: ts => 1 + size cs + size ts
 
+mutual
+/-- pre-order listing with depths (determines the forest; used to state concrete examples) -/
+def Tree.flat (d : Nat) : Tree → List (Nat × List UInt8 × Option (List UInt8))
+  | .node n v cs => (d, n, v) :: flat (d + 1) cs
+def flat (d : Nat) : Forest → List (Nat × List UInt8 × Option (List UInt8))
+  | [] => []
+  | t :: ts => Tree.flat d t ++ flat d ts
+end
+
 /-- canonical text of the line protocol: `name[=value][(children)]`, lists joined by `,`, `.` = empty -/
 def fmtTrees : Forest → List String
   | [] => []
